@@ -13,6 +13,7 @@ type scannerState struct {
 	err    value
 	custom bool
 	maxTok int64
+	sep    string // token separator ("\n" with CR dropping for ScanLines, "\x00" for tools.SplitOnNul)
 }
 
 func (i *interpreter) readAll(fr *frame, r iface) (value, value) {
@@ -74,8 +75,14 @@ func init() {
 		return nil
 	})
 	reg("(*bufio.Scanner).Split", func(fr *frame, a []value) value {
-		if f, ok := a[1].(interface{ String() string }); ok && f.String() == "bufio.ScanLines" {
-			return nil
+		if f, ok := a[1].(interface{ String() string }); ok {
+			switch f.String() {
+			case "bufio.ScanLines":
+				return nil
+			case "github.com/git-lfs/git-lfs/v3/tools.SplitOnNul":
+				st(fr, a[0]).sep = "\x00"
+				return nil
+			}
 		}
 		unsup("bufio.Scanner.Split with a custom split function")
 		return nil
@@ -95,8 +102,17 @@ func init() {
 			return false
 		}
 		var line value
-		if head, tail, found := p.splitFirst(s.rest, "\n"); found == 1 {
+		sep := "\n"
+		if s.sep != "" {
+			sep = s.sep
+		}
+		if head, tail, found := p.splitFirst(s.rest, sep); found == 1 {
 			line, s.rest = head, tail
+		} else if s.sep != "" {
+			if found != 0 {
+				unsup("bufio.Scanner with NUL split over text that may contain NUL bytes symbolically")
+			}
+			line, s.rest = s.rest, ""
 		} else if found == 0 || !i.branch(mkContains(s.rest, "\n")) {
 			line, s.rest = s.rest, ""
 		} else {
@@ -113,11 +129,66 @@ func init() {
 			return false
 		}
 		// dropCR
-		if i.branch(p.suffixV("\r", line)) {
+		if s.sep == "" && i.branch(p.suffixV("\r", line)) {
 			line = p.mkSubstr(line, int64(0), p.mkSub(p.mkLen(line), int64(1)))
 		}
 		s.tok = i.compact(line)
 		return true
+	})
+	// ---- bufio.Reader (ReadString / Read over the whole underlying content)
+	rd := func(fr *frame, v value) *scannerState {
+		no, ok := v.(*nativeObj)
+		if !ok {
+			fr.i.checkPoison(v, "bufio.Reader")
+			unsup("bufio.Reader receiver %T", v)
+		}
+		s := no.v.(*scannerState)
+		if !s.loaded {
+			s.loaded = true
+			data, err := fr.i.readAll(fr, s.reader)
+			s.data, s.rest = data, data
+			s.err = err
+		}
+		return s
+	}
+	reg("bufio.NewReader", func(fr *frame, a []value) value {
+		return &nativeObj{kind: "bufreader", v: &scannerState{reader: a[0].(iface), err: nilErr()}}
+	})
+	reg("bufio.NewReaderSize", func(fr *frame, a []value) value {
+		return &nativeObj{kind: "bufreader", v: &scannerState{reader: a[0].(iface), err: nilErr()}}
+	})
+	reg("(*bufio.Reader).ReadString", func(fr *frame, a []value) value {
+		i := fr.i
+		p := i.path
+		s := rd(fr, a[0])
+		delim := string([]byte{byte(i.concreteInt(a[1], "ReadString delimiter"))})
+		eof := i.globalValue("io", "EOF")
+		if head, tail, found := p.splitFirst(s.rest, delim); found == 1 {
+			s.rest = tail
+			return tuple{mkConcat(head, delim), nilErr()}
+		} else if found == 0 || !i.branch(mkContains(s.rest, delim)) {
+			line := s.rest
+			s.rest = ""
+			return tuple{line, eof}
+		}
+		h := p.freshVar("ln", SStr)
+		t := p.freshVar("lr", SStr)
+		p.pc = append(p.pc, "(= "+tStr(s.rest)+" (str.++ "+h.e+" "+smtStr(delim)+" "+t.e+"))", "(not (str.contains "+h.e+" "+smtStr(delim)+"))")
+		p.facts["nc|"+h.e+"|"+delim] = true
+		s.rest = t
+		return tuple{mkConcat(h, delim), nilErr()}
+	})
+	reg("(*bufio.Reader).Read", func(fr *frame, a []value) value {
+		i := fr.i
+		p := i.path
+		s := rd(fr, a[0])
+		buf := a[1].(*byteSlice)
+		if !i.branch(p.mkIntCmp(">", p.mkLen(s.rest), int64(0))) {
+			return tuple{int64(0), i.globalValue("io", "EOF")}
+		}
+		n := i.byteCopy(buf, s.rest)
+		s.rest = p.mkSubstr(s.rest, n, p.mkSub(p.mkLen(s.rest), n))
+		return tuple{n, nilErr()}
 	})
 	reg("(*bufio.Scanner).Text", func(fr *frame, a []value) value { return st(fr, a[0]).tok })
 	reg("(*bufio.Scanner).Bytes", func(fr *frame, a []value) value { return fr.i.newBytes(st(fr, a[0]).tok) })
